@@ -296,6 +296,13 @@ fn constants() -> usize {
         "x = 2\nif .c == 1 { x = 0 }\n.r = 10 / x\n.",
         "x = [2, 3]\nx[0] = 0\n.r = 10 / x[0]\n.",
         "x = 4\ny = x\nx = 0\n.r = 10 / y\n.",
+        "x = 0\nif .c == 1 { x = 4 }\n.r = 10 / x\n.",
+        "x = 4\nif .c == 1 { x = 0 }\n.r = 10 / x\n.",
+        "x = 0\nif .c == 1 { x = 4 } else { x = 0 }\n.r = 10 / x\n.",
+        "x = 5\ny = (.a == 1) && { x = 0; true }\n.r = 10 / x\n.",
+        "x = 0\ny = (.a == 1) && { x = 5; true }\n.r = 10 / x\n.",
+        "x = 0\ny = (.a != 1) || { x = 5; true }\n.r = 10 / x\n.",
+        "x = 0\ny = to_int(.a) ?? { x = 5; 1 }\n.r = 10 / x\n.",
     ];
     let mut bad = 0;
     for src in progs {
@@ -414,6 +421,81 @@ fn target_faults() -> usize {
     bad
 }
 
+/// A target that records every path it is asked to read / write / delete.
+#[derive(Debug)]
+struct Recording {
+    inner: TargetValue,
+    reads: std::cell::RefCell<Vec<vrl::path::OwnedTargetPath>>,
+    writes: Vec<vrl::path::OwnedTargetPath>,
+}
+impl vrl::compiler::SecretTarget for Recording {
+    fn get_secret(&self, key: &str) -> Option<&str> { self.inner.get_secret(key) }
+    fn insert_secret(&mut self, key: &str, value: &str) { self.inner.insert_secret(key, value) }
+    fn remove_secret(&mut self, key: &str) { self.inner.remove_secret(key) }
+}
+impl vrl::compiler::Target for Recording {
+    fn target_insert(&mut self, path: &vrl::path::OwnedTargetPath, value: Value) -> Result<(), String> {
+        self.writes.push(path.clone());
+        self.inner.target_insert(path, value)
+    }
+    fn target_get(&self, path: &vrl::path::OwnedTargetPath) -> Result<Option<&Value>, String> {
+        self.reads.borrow_mut().push(path.clone());
+        self.inner.target_get(path)
+    }
+    fn target_get_mut(&mut self, path: &vrl::path::OwnedTargetPath) -> Result<Option<&mut Value>, String> {
+        self.reads.borrow_mut().push(path.clone());
+        self.inner.target_get_mut(path)
+    }
+    fn target_remove(&mut self, path: &vrl::path::OwnedTargetPath, compact: bool) -> Result<Option<Value>, String> {
+        self.reads.borrow_mut().push(path.clone());
+        self.inner.target_remove(path, compact)
+    }
+}
+
+/// every runtime read is covered by a reported query, every runtime write by a reported assignment
+fn reported_paths() -> usize {
+    let ev = |json: &str| -> Value { serde_json::from_str::<serde_json::Value>(json).map(Value::from).unwrap() };
+    let covered = |list: &[vrl::path::OwnedTargetPath], p: &vrl::path::OwnedTargetPath| list.iter().any(|q| q.can_start_with(p) || p.can_start_with(q));
+    let progs = [
+        ".out = [.foo, %foo]",
+        ".out = [%bar.baz, .bar.baz]",
+        ".a = .foo\n.b = del(%foo)",
+        ".a = exists(.message)\n.b = %message",
+        ".x = 1\n%y = 2\n.z = .x",
+        ".a, .b = to_int(.c)",
+        ".a, %b = to_int(.c)",
+        "%a, %a = to_int(.c)",
+        ".p.q = .p.r\ndel(.p.q)",
+        "x = .foo\n.foo = x\n.foo = x",
+        ".a = .foo\n.b = .foo\n.c = %foo",
+    ];
+    let mut bad = 0;
+    for src in progs {
+        let fns = vrl::stdlib::all();
+        let Ok(res) = compile(src, &fns) else { bad += 1; fail("reported_paths", src, "compiles", "compile error"); continue };
+        let info = res.program.info();
+        let mut t = Recording { inner: TargetValue { value: ev(r#"{"foo": 1, "bar": {"baz": 2}, "message": "m", "c": "5", "p": {"r": 1}}"#),
+                                metadata: ev(r#"{"foo": 3, "bar": {"baz": 4}, "message": "mm"}"#), secrets: Secrets::default() },
+                                reads: std::cell::RefCell::new(vec![]), writes: vec![] };
+        let mut rt = Runtime::default();
+        let _ = rt.resolve(&mut t, &res.program, &TimeZone::default());
+        for p in t.reads.borrow().iter() {
+            if p.path.is_root() { continue; } // the runtime's own root check
+            if !covered(&info.target_queries, p) {
+                bad += 1;
+                fail("reported_paths", src, &format!("read of {} covered by target_queries", p), &format!("{:?}", info.target_queries.iter().map(|q| q.to_string()).collect::<Vec<_>>()));
+            }
+        }
+        for p in t.writes.iter() {
+            if !covered(&info.target_assignments, p) {
+                bad += 1;
+                fail("reported_paths", src, &format!("write of {} covered by target_assignments", p), &format!("{:?}", info.target_assignments.iter().map(|q| q.to_string()).collect::<Vec<_>>()));
+            }
+        }
+    }
+    bad
+}
+
 fn main() {
     let unit = std::env::args().nth(1).unwrap_or_default();
     let bad = match unit.as_str() {
@@ -424,6 +506,7 @@ fn main() {
         "read_only" => read_only(),
         "constants" => constants(),
         "target_faults" => target_faults(),
+        "reported_paths" => reported_paths(),
         _ => {
             eprintln!("unknown witness unit {unit}");
             std::process::exit(2);
